@@ -55,6 +55,15 @@ SHAPES = {
         ("Inner(1,2)", dict(p=("Inner", 1, 2))), ("Inner2(1,2)", dict(p=("Inner2", 1, 2))), ("Inner(1,3)", dict(p=("Inner", 1, 3))),
         ("RED", dict(p=("En2", "RED"))), ("1", dict(p=1)), ("GREEN", dict(p=("En2", "GREEN"))), ("2", dict(p=2)),
     ]),
+    # the same openness one level down, for the members of a sequence
+    "classseq": dict(fields=[("t", "Tuple[Union[Inner,Inner2,En2,int],...]")], values=[
+        ("[Inner(1,2)]", dict(t=(("Inner", 1, 2),))), ("[Inner2(1,2)]", dict(t=(("Inner2", 1, 2),))), ("[Inner(1,2),Inner(1,2)]", dict(t=(("Inner", 1, 2), ("Inner", 1, 2)))),
+        ("[Inner(1,2),Inner2(1,2)]", dict(t=(("Inner", 1, 2), ("Inner2", 1, 2)))), ("[RED]", dict(t=(("En2", "RED"),))), ("[1]", dict(t=(1,))), ("[]", dict(t=())), ("[1,RED]", dict(t=(1, ("En2", "RED")))),
+    ]),
+    "classset": dict(fields=[("f", "FrozenSet[Union[Inner,Inner2,int]]")], values=[
+        ("{Inner(1,2)}", dict(f=(("Inner", 1, 2),))), ("{Inner2(1,2)}", dict(f=(("Inner2", 1, 2),))), ("{Inner(1,2),Inner2(1,2)}", dict(f=(("Inner", 1, 2), ("Inner2", 1, 2)))),
+        ("{Inner2(1,2),Inner(1,2)}", dict(f=(("Inner2", 1, 2), ("Inner", 1, 2)))), ("{1}", dict(f=(1,))), ("{}", dict(f=())),
+    ]),
     "hdl": dict(fields=[("m", "Instantiable")], values=[("ModA", dict(m="ModA")), ("ModB", dict(m="ModB")), ("R1", dict(m="R1")), ("R2", dict(m="R2")), ("E1", dict(m="E1")), ("E2", dict(m="E2")),
         # calls of an external module with dict parameters: equal dicts written in different key orders, and a different one
         ("D1", dict(m="D1")), ("D1r", dict(m="D1r")), ("D2", dict(m="D2")),
@@ -66,7 +75,7 @@ SHAPES = {
 def make_env():
     """Fresh generator machinery for one scenario: param-classes, generators with body counters, helper objects."""
     import enum
-    from typing import Optional, FrozenSet, Union
+    from typing import Optional, FrozenSet, Union, Tuple
     import hdl21 as h
     from hdl21.prefix import Prefix
     from decimal import Decimal
@@ -97,7 +106,8 @@ def make_env():
         for n, t in fields:
             dt = {"str": str, "int": int, "Optional[float]": Optional[float], "float": float, "Enum": En, "Inner": Inner, "Prefixed": h.Prefixed,
                   "Scalar": h.Scalar, "Instantiable": h.Instantiable, "Optional[str]": Optional[str], "Optional[int]": Optional[int], "FrozenSet[str]": FrozenSet[str], "Union[int,str]": Union[int, str],
-                  "Union[Inner,Inner2,En2,int]": Union[Inner, Inner2, En2, int]}[t]
+                  "Union[Inner,Inner2,En2,int]": Union[Inner, Inner2, En2, int], "Tuple[Union[Inner,Inner2,En2,int],...]": Tuple[Union[Inner, Inner2, En2, int], ...],
+                  "FrozenSet[Union[Inner,Inner2,int]]": FrozenSet[Union[Inner, Inner2, int]]}[t]
             ns[n] = h.Param(dtype=dt, desc=n)
         return h.paramclass(type("P", (), ns))
 
@@ -139,6 +149,10 @@ def make_env():
                 v = Inner(u=v[0], v=v[1])
             elif t == "Union[Inner,Inner2,En2,int]" and isinstance(v, tuple):
                 v = Inner(u=v[1], v=v[2]) if v[0] == "Inner" else Inner2(u=v[1], v=v[2]) if v[0] == "Inner2" else En2[v[1]]
+            elif t == "FrozenSet[Union[Inner,Inner2,int]]":
+                v = frozenset((Inner(u=e[1], v=e[2]) if e[0] == "Inner" else Inner2(u=e[1], v=e[2])) if isinstance(e, tuple) else e for e in v)
+            elif t == "Tuple[Union[Inner,Inner2,En2,int],...]":
+                v = tuple((Inner(u=e[1], v=e[2]) if e[0] == "Inner" else Inner2(u=e[1], v=e[2]) if e[0] == "Inner2" else En2[e[1]]) if isinstance(e, tuple) else e for e in v)
             elif t == "Prefixed":
                 v = h.Prefixed(number=Decimal(v[0]), prefix=Prefix.from_exp(v[1]))
             elif t == "Instantiable":
